@@ -1,9 +1,12 @@
-(* Parse/StmtModel.v -- a family of STATEMENTS modelled whole, with error recovery: twenty DDL statements -- the seventeen that consist of
+(* Parse/StmtModel.v -- a family of STATEMENTS modelled whole, with error recovery: twenty-four DDL statements -- the seventeen that consist of
    fixed words, an optional IF EXISTS and a name --
      DROP SCHEMA | LOCALITY GROUP | PROTO BUNDLE | TABLE | INDEX | SEARCH INDEX | VECTOR INDEX | SEQUENCE | VIEW | ROLE | CHANGE STREAM |
           MODEL | PROPERTY GRAPH,   ANALYZE,   CREATE SCHEMA,   CREATE DATABASE,   CREATE ROLE
    -- and three with comma-separated lists (parseCommaSeparatedList), nested nodes and, for the privileges, look-ahead with backtracking --
      RENAME TABLE a TO b {, c TO d},   GRANT privilege TO ROLE r {, r},   REVOKE privilege FROM ROLE r {, r}
+   -- and four more with lists of dotted names, optional clauses and alternatives --
+     CREATE PROTO BUNDLE (a.b, c),   ALTER PROTO BUNDLE [INSERT (..)] [UPDATE (..)] [DELETE (..)],
+     ALTER INDEX a.b ADD | DROP STORED COLUMN c,   ALTER SEARCH INDEX i ADD | DROP STORED COLUMN c
    -- as parsed by parseDDL (parser.go) and reached from parseStatement, together with handleParseStatementError (the recover point of
    parseDDL: restore the lexer, record the error, skip to the next ";" or the end of input, return a BadDDL holding the skipped tokens).
    Statements outside the family answer None (not modelled).  With the list loop of Parse/ListLoop.v this gives a model of
@@ -15,7 +18,7 @@ Local Open Scope Z_scope.
 
 (* a field of a node: a position, a flag, an identifier, a dotted name, a list of identifiers, a child node, a list of child nodes *)
 Inductive dfield := FPos (z : Z) | FBool (b : bool) | FIdent (i : ident) | FPath (ids : list ident) | FIdents (ids : list ident)
-                  | FSub (ty : string) (fs : list dfield) | FSubs (l : list dfield).
+                  | FSub (ty : string) (fs : list dfield) | FSubs (l : list dfield) | FNil.
 Inductive dnode :=
 | DNode (ty : string) (fs : list dfield)
 | DBad (stmt_level : bool) (pos end_ : Z) (skipped : list ptok).   (* BadDDL { BadNode } / BadStatement { Hint: nil, BadNode } *)
@@ -92,7 +95,7 @@ Fixpoint find_row (rows : list row) (t : ptok) : option row :=
 
 (* the other words the switch after CREATE / the first token of parseDDL know: statements outside the family *)
 Definition other_create (t : ptok) : bool :=
-  is_kwlike t "LOCALITY" || is_kwlike t "PLACEMENT" || kis t "PROTO" || is_kwlike t "TABLE" || is_kwlike t "SEQUENCE" || is_kwlike t "VIEW"
+  is_kwlike t "LOCALITY" || is_kwlike t "PLACEMENT" || is_kwlike t "TABLE" || is_kwlike t "SEQUENCE" || is_kwlike t "VIEW"
   || is_kwlike t "INDEX" || is_kwlike t "UNIQUE" || is_kwlike t "NULL_FILTERED" || is_kwlike t "SEARCH" || is_kwlike t "VECTOR"
   || is_kwlike t "CHANGE" || is_kwlike t "MODEL" || kis t "OR" || is_kwlike t "PROPERTY".
 
@@ -156,6 +159,48 @@ Definition parse_grant (revoke : bool) (pos : Z) (ts : toks) : res (dnode * toks
   do (roles, ts4) <- comma_list parse_ident ts3;
   Ok (DNode (if revoke then "Revoke" else "Grant") [FPos pos; pv; FIdents roles], ts4).
 
+(* parseNamedType, parseProtoBundleTypes *)
+Definition named_type (ts : toks) : res (dfield * toks) := do (ids, r) <- parse_path ts; Ok (FSub "NamedType" [FIdents ids], r).
+Definition bundle_types (ts : toks) : res (dfield * toks) :=
+  do (lp, r1) <- expect "(" ts; do (tys, r2) <- comma_list named_type r1; do (rp, r3) <- expect ")" r2;
+  Ok (FSub "ProtoBundleTypes" [FPos (ppos lp); FPos (ppos rp); FSubs tys], r3).
+
+(* tryParseAlterProtoBundleInsert / Update / Delete: nil when the word is not there *)
+Definition bundle_clause (kw ty : string) (ts : toks) : res (dfield * toks) :=
+  if is_kwlike (cur ts) kw then do (tys, r) <- bundle_types (next ts); Ok (FSub ty [FPos (ppos (cur ts)); tys], r) else Ok (FNil, ts).
+
+Definition parse_create_bundle (pos : Z) (ts : toks) : res (dnode * toks) :=
+  do (_, r1) <- expect "PROTO" ts; do (_, r2) <- expect_kw "BUNDLE" r1; do (tys, r3) <- bundle_types r2;
+  Ok (DNode "CreateProtoBundle" [FPos pos; tys], r3).
+
+Definition parse_alter_bundle (pos : Z) (ts : toks) : res (dnode * toks) :=
+  do (_, r1) <- expect "PROTO" ts; do (b, r2) <- expect_kw "BUNDLE" r1;
+  do (i, r3) <- bundle_clause "INSERT" "AlterProtoBundleInsert" r2;
+  do (u, r4) <- bundle_clause "UPDATE" "AlterProtoBundleUpdate" r3;
+  do (d, r5) <- bundle_clause "DELETE" "AlterProtoBundleDelete" r4;
+  Ok (DNode "AlterProtoBundle" [FPos pos; FPos (ppos b); i; u; d], r5).
+
+(* parseIndexAlteration = parseAddStoredColumn | parseDropStoredColumn *)
+Definition index_alteration (ts : toks) : res (dfield * toks) :=
+  let t := cur ts in
+  if is_kwlike t "ADD" || is_kwlike t "DROP" then
+    do (_, r1) <- expect_kw "STORED" (next ts); do (_, r2) <- expect_kw "COLUMN" r1; do (i, r3) <- parse_ident r2;
+    Ok (FSub (if is_kwlike t "ADD" then "AddStoredColumn" else "DropStoredColumn") [FPos (ppos t); FIdent i], r3)
+  else Err (ppos t).
+
+Definition parse_alter_index (pos : Z) (ts : toks) : res (dnode * toks) :=
+  do (_, r1) <- expect_kw "INDEX" ts; do (ids, r2) <- parse_path r1; do (a, r3) <- index_alteration r2;
+  Ok (DNode "AlterIndex" [FPos pos; FPath ids; a], r3).
+
+Definition parse_alter_search_index (pos : Z) (ts : toks) : res (dnode * toks) :=
+  do (_, r1) <- expect_kw "SEARCH" ts; do (_, r2) <- expect_kw "INDEX" r1; do (i, r3) <- parse_ident r2; do (a, r4) <- index_alteration r3;
+  Ok (DNode "AlterSearchIndex" [FPos pos; FIdent i; a], r4).
+
+(* the other words the switch after ALTER knows: statements outside the family *)
+Definition other_alter (t : ptok) : bool :=
+  is_kwlike t "TABLE" || is_kwlike t "DATABASE" || is_kwlike t "LOCALITY" || is_kwlike t "SEQUENCE" || is_kwlike t "CHANGE"
+  || is_kwlike t "STATISTICS" || is_kwlike t "MODEL".
+
 (* parseDDL, success path; None = a statement outside the family *)
 Definition ddl_body (ts : toks) : option (res (dnode * toks)) :=
   let t := cur ts in
@@ -163,7 +208,8 @@ Definition ddl_body (ts : toks) : option (res (dnode * toks)) :=
     let ts1 := next ts in
     match find_row create_rows (cur ts1) with
     | Some r => Some (parse_row (ppos t) r ts1)
-    | None => if other_create (cur ts1) then None                  (* the other CREATE statements: not modelled *)
+    | None => if kis (cur ts1) "PROTO" then Some (parse_create_bundle (ppos t) ts1)
+              else if other_create (cur ts1) then None             (* the other CREATE statements: not modelled *)
               else Some (Err (ppos (cur ts1)))                   (* expected pseudo keyword: DATABASE, TABLE, ... *)
     end
   else if is_kwlike t "DROP" then
@@ -176,7 +222,14 @@ Definition ddl_body (ts : toks) : option (res (dnode * toks)) :=
   else if is_kwlike t "RENAME" then Some (parse_rename (ppos t) (next ts))
   else if is_kwlike t "GRANT" then Some (parse_grant false (ppos t) (next ts))
   else if is_kwlike t "REVOKE" then Some (parse_grant true (ppos t) (next ts))
-  else if is_kwlike t "ALTER" then None
+  else if is_kwlike t "ALTER" then
+    let ts1 := next ts in
+    let u := cur ts1 in
+    if kis u "PROTO" then Some (parse_alter_bundle (ppos t) ts1)
+    else if is_kwlike u "INDEX" then Some (parse_alter_index (ppos t) ts1)
+    else if is_kwlike u "SEARCH" then Some (parse_alter_search_index (ppos t) ts1)
+    else if other_alter u then None                                (* the other ALTER statements: not modelled *)
+    else Some (Err (ppos u))                                       (* expected pseudo keyword: TABLE, CHANGE *)
   else Some (Err (ppos t)).                          (* expected token: CREATE, <ident> / expected pseudo keyword: ALTER, DROP *)
 
 (* handleParseStatementError: from the first token of the failed statement, everything up to the next ";" or the end of input *)
@@ -216,6 +269,7 @@ Fixpoint field_tree (f : dfield) : tree :=
   | FIdents ids => TList (map t_ident ids)
   | FSub ty fs => TNode ty (map field_tree fs)
   | FSubs l => TList (map field_tree l)
+  | FNil => TNil
   end.
 Definition dnode_tree (d : dnode) : tree :=
   match d with
